@@ -5,3 +5,4 @@ import LicenseExpr.Props.C15
 #print axioms LE.C15_spdx_unknown
 #print axioms LE.C15_indexOK_builds
 #print axioms LE.C15_general
+#print axioms LE.C15_general_validates
